@@ -300,7 +300,7 @@ theorem sigF_dotted : ∀ (P : List String) (D : DMap) (f : FieldR),
     updE (flatD P D) (sigF P f).entries = (dottedF P (effF D f)).entries ∧ (sigF P f).required = (dottedF P (effF D f)).required
   | P, D, .leaf n ty d st => by
     simp only [sigF, effF, dottedF, addArgR, updE, List.map_cons, List.map_nil, and_true]
-    have := lastA_leaf P n D none (d.getD .null)
+    have := lastA_leaf P n D none ((normOptD ty d).getD .null)
     simp only [] at this
     rw [this]
     cases valFor n D none <;> rfl
